@@ -43,6 +43,10 @@ Emit == PrintT(ToJson([G |-> G, es |-> es,
                        \* derived intervals keep the strand of the entry they come from: values under the clipped entries and under the windows
                        underclip |-> [i \in DOMAIN es |-> LET r == GClip([k \in DOMAIN es |-> Stick(k)], G)[i]
                                                           IN Under(Val, [c |-> r.c, s |-> r.s, e |-> r.e, st |-> es[i].st], TRUE)],
+                       \* windows around the strand-aware start of each entry (its first base on its own strand): still stranded
+                       undertss |-> [f \in 1..2 |-> [i \in DOMAIN es |-> LET p == IF es[i].st = "+" THEN es[i].s ELSE es[i].e - 1
+                                                                              w == Window(es[i].c, p, f - 1, G)
+                                                                          IN Under(Val, [c |-> w.c, s |-> w.s, e |-> w.e, st |-> es[i].st], TRUE)]],
                        underwin |-> [f \in 1..2 |-> [i \in DOMAIN es |-> LET w == Window(es[i].c, es[i].s, f - 1, G)
                                                                           IN Under(Val, [c |-> w.c, s |-> w.s, e |-> w.e, st |-> es[i].st], TRUE)]],
                        offsets |-> [c \in DOMAIN G |-> Offset(G, c)]]))
